@@ -32,7 +32,7 @@ Definition inst_mon_exit : list (list pop * option nat) := [([OCreate; OExit], N
 
 Definition FUEL := 20000%nat.
 Definition check_with (priv nlc : bool) P ps (S : list st) : bool := mem (init_st ps) S && closed priv nlc P S.
-Definition check (priv nlc : bool) P ps : bool := check_with priv nlc P ps (reach_set priv nlc ps FUEL).
+Notation check priv nlc P ps := (check_with priv nlc P ps (reach_set priv nlc ps FUEL)).
 
 Lemma check_with_sound priv nlc P ps S :
   check_with priv nlc P ps S = true ->
@@ -43,13 +43,6 @@ Proof.
   intros H. unfold check_with in H. apply andb_prop in H. destruct H as [Hm Hc].
   intros. eapply closed_transitions; eauto. apply rel_init.
 Qed.
-
-Lemma check_sound priv nlc P ps :
-  check priv nlc P ps = true ->
-  forall sched t c' es,
-    step1 (step priv nlc) t (fst (run (step priv nlc) sched (init (progs_of ps) (kills_of ps)))) = Some (c', es) ->
-    exists s, rel (fst (run (step priv nlc) sched (init (progs_of ps) (kills_of ps)))) s /\ P s t es = true.
-Proof. intros H. exact (check_with_sound priv nlc P ps _ H). Qed.
 
 (* the guard process of a related list state *)
 Lemma rel_guard c s : rel c s -> Nat.ltb 0 (length (snd s)) = true ->
@@ -67,7 +60,7 @@ Lemma safe_conclusion priv ps sched t c' es :
   crashed (snd (fst (run (step priv true) sched (init (progs_of ps) (kills_of ps)))) 0%nat) = true.
 Proof.
   intros Hc Hst Hin.
-  destruct (check_sound _ _ _ _ Hc _ _ _ _ Hst) as [s [Hrel HP]].
+  destruct (check_with_sound _ _ _ _ _ Hc _ _ _ _ Hst) as [s [Hrel HP]].
   unfold P_safe in HP. apply andb_prop in HP. destruct HP as [Hlen HP].
   destruct (rel_guard _ _ Hrel Hlen) as [l [E Hl]].
   unfold guard_crashed in HP. rewrite E in HP. rewrite Hl.
@@ -83,7 +76,7 @@ Lemma nolock_conclusion priv ps sched t c' es :
   sees_state_lock es = false.
 Proof.
   intros Hc Hst Hcr.
-  destruct (check_sound _ _ _ _ Hc _ _ _ _ Hst) as [s [Hrel HP]].
+  destruct (check_with_sound _ _ _ _ _ Hc _ _ _ _ Hst) as [s [Hrel HP]].
   unfold P_nolock in HP. apply andb_prop in HP. destruct HP as [Hlen HP].
   destruct (rel_guard _ _ Hrel Hlen) as [l [E Hl]].
   unfold guard_crashed in HP. rewrite E in HP. rewrite Hl in Hcr. rewrite Hcr in HP.
